@@ -167,7 +167,7 @@ CHECK_DEADLOCK FALSE
         brief = {"keylen": row["keylen"], "opts": row["opts"], "kind": row["kind"], "container": container, "pos": pos,
                  "got": {k: (v if not isinstance(v, list) or len(v) < 12 else f"<{len(v)} items>") for k, v in res.items()}}
         m = {"op": "guardrails", "kind": row["kind"]}
-        exp_opts = [(refguard.OPT[o], 2 if o == "ip" else 1, 4 if o == "ip" else 2) for o in row["opts"]] + [(9, 2, 4)]
+        exp_opts = [(9, 2, 4) if o == "checksum" else (refguard.OPT[o], 2 if o == "ip" else 1, 4 if o == "ip" else 2) for o in row["opts"]] + ([] if "checksum" in row["opts"] else [(9, 2, 4)])
         if row["reportable"]:
             if res["from_bytes"] != "ok" or not res.get("has_guardrails"):
                 ctx.violation("protected configuration was not recovered", {**m, "failed": "not_recovered", "keylen_class": "pow2" if row["keylen"] & (row["keylen"] - 1) == 0 else "other"}, brief)
